@@ -63,4 +63,54 @@ theorem doCollection_markDebt_wake {c c2 c3 : Ctx} {root : List Slot}
   have : Stop.fullyMarked ≤ Stop.fullyMarked := by decide
   simp only [this, if_true]
 
+/-! ### Stepping a self-driven loop by hand -/
+
+theorem debtBreak_false_of_hasDebt {c : Ctx} {ru : RunUntil} (h : c.metrics.hasDebt = true) :
+    c.debtBreak ru = false := by
+  simp [Ctx.debtBreak, h]
+
+/-- Mark phase, nothing gray, stop beyond `FullyMarked`, still in debt: `b`, `S`, and on. -/
+theorem collectLoop_toSweep {c : Ctx} {root ru stop fault fuel hs k}
+    (hp : c.phase = .mark) (hg : c.grayRemaining = false) (hstop : ¬ stop ≤ Stop.fullyMarked)
+    (hd : (c.step 'b').enterSweep.metrics.hasDebt = true) :
+    Ctx.collectLoop root ru stop fault (fuel + 1) c hs k =
+      Ctx.collectLoop root ru stop fault fuel (c.step 'b').enterSweep hs k := by
+  conv => lhs; unfold Ctx.collectLoop
+  simp only [hp, markOne_break _ hg, hstop, if_false, debtBreak_false_of_hasDebt hd,
+    Bool.false_eq_true, hg]
+
+/-- Sweep phase, something left, stop beyond `AtSweep`, still in debt afterwards: `x`, and on. -/
+theorem collectLoop_sweep_on {c : Ctx} {root ru stop fault fuel hs k}
+    (hp : c.phase = .sweep) (hr : c.rest ≠ []) (hstop : ¬ stop ≤ Stop.atSweep)
+    (hd : c.sweepOne.1.metrics.hasDebt = true) :
+    Ctx.collectLoop root ru stop fault (fuel + 1) c hs k =
+      Ctx.collectLoop root ru stop fault fuel c.sweepOne.1 hs k := by
+  conv => lhs; unfold Ctx.collectLoop
+  simp only [hp, hstop, if_false]
+  rw [show c.sweepOne = (c.sweepOne.1, c.sweepOne.2) from rfl, sweepOne_flow hr]
+  simp only [debtBreak_false_of_hasDebt hd, Bool.false_eq_true, if_false]
+
+/-- … debt paid afterwards, and something still left to sweep: `x`, and return. -/
+theorem collectLoop_sweep_paid {c : Ctx} {root stop fault fuel hs k}
+    (hp : c.phase = .sweep) (hr : c.rest ≠ []) (hstop : ¬ stop ≤ Stop.atSweep)
+    (hd : c.sweepOne.1.metrics.hasDebt = false) (hr1 : c.sweepOne.1.rest ≠ []) :
+    Ctx.collectLoop root .payDebt stop fault (fuel + 1) c hs k = (c.sweepOne.1, .returned) := by
+  conv => lhs; unfold Ctx.collectLoop
+  simp only [hp, hstop, if_false]
+  rw [show c.sweepOne = (c.sweepOne.1, c.sweepOne.2) from rfl, sweepOne_flow hr]
+  have hb : c.sweepOne.1.debtBreak .payDebt = true := by
+    have : c.sweepOne.1.rest.isEmpty = false := by
+      cases hx : c.sweepOne.1.rest with
+      | nil => exact absurd hx hr1
+      | cons _ _ => rfl
+    simp [Ctx.debtBreak, hd, this]
+  simp only [hb, if_true]
+
+/-- Entering a call in debt with explicit fuel. -/
+theorem doCollection_loop {c : Ctx} {root ru stop fault} (hd : c.metrics.hasDebt = true) :
+    c.doCollection root ru stop fault =
+      Ctx.collectLoop root ru stop fault (2 * c.fuelBound root + 8) c false 0 := by
+  unfold Ctx.doCollection
+  simp [hd]
+
 end GcArena
